@@ -22,10 +22,19 @@
    q.sameunits <u> <w>          (route independence: same SI dimension and same power of rad)
    q.freshok <domain> <q> <u>   (units of a fresh / analysis-produced expression: spec's expectedDim)
    q.dim <u>                    -> v,a,t
+   typed results of two-ports / netlist methods (expectation tables of Generated/QuantitiesTP.lean):
+   q.tpexpect <attr>            -> <num> <den> <quantity> | none      (C08 table)
+   q.docexpect <class> <attr>   -> <num> <den> <quantity> | none      (ratio named by the code's docstring)
+   q.netexpect <method>         -> <num> <den> <quantity> | none
+   q.entryports <rep> <ij>      -> <num> <den> <quantity> | none
+   q.ratiook <num> <den> <domain> <q> <u>     (spec predicate ratioOk)
+   q.entryok <num> <den> <domain> <q> <u>     (spec predicate entryOk)
+   q.signalok <want> <domain> <q> <u>         (spec predicate signalOk)
 -/
 import Lcapy.Generated.Quantities
+import Lcapy.Generated.QuantitiesTP
 namespace Lcapy.Driver.C18
-open Lcapy.Dim Lcapy.QModel
+open Lcapy.Dim Lcapy.QModel Lcapy.DimTP
 
 def T : Tables := Lcapy.Gen.Q.tables
 
@@ -65,7 +74,44 @@ def outStr : Outcome → String
 
 def bstr (b : Bool) : String := if b then "true" else "false"
 
-def handle (toks : List String) : Option String :=
+def ratioStr (num den : PortVar) : String :=
+  match expectedRatio num den with
+  | some q => s!"{num} {den} {q}"
+  | none => "none"
+
+def handleTP (toks : List String) : Option String :=
+  match toks with
+  | ["q.tpexpect", a] => some <|
+      match Lcapy.Gen.QTP.tpExpect.find? (fun r => r.1 == a) with
+      | some r => s!"{r.2.1} {r.2.2.1} {r.2.2.2}"
+      | none => "none"
+  | ["q.docexpect", c, a] => some <|
+      match Lcapy.Gen.QTP.docPorts.find? (fun r => r.1 == c && r.2.1 == a) with
+      | some r => ratioStr r.2.2.1 r.2.2.2
+      | none => "none"
+  | ["q.netexpect", m] => some <|
+      match Lcapy.Gen.QTP.netPorts.find? (fun r => r.1 == m) with
+      | some r => ratioStr r.2.1 r.2.2
+      | none => "none"
+  | ["q.entryports", x, ij] => some <|
+      match Lcapy.Gen.QTP.entryPorts.find? (fun r => r.1 == x && r.2.1 == ij) with
+      | some r => ratioStr r.2.2.1 r.2.2.2
+      | none => "none"
+  | ["q.ratiook", n, d, dom, q, u] => some <|
+      match PortVar.ofString? n, PortVar.ofString? d, Domain.ofString? dom, Quantity.ofString? q, parseU u with
+      | some n, some d, some dom, some q, some u => bstr (ratioOk n d dom q u)
+      | _, _, _, _, _ => "bad-op"
+  | ["q.entryok", n, d, dom, q, u] => some <|
+      match PortVar.ofString? n, PortVar.ofString? d, Domain.ofString? dom, Quantity.ofString? q, parseU u with
+      | some n, some d, some dom, some q, some u => bstr (entryOk n d dom q u)
+      | _, _, _, _, _ => "bad-op"
+  | ["q.signalok", w, dom, q, u] => some <|
+      match Quantity.ofString? w, Domain.ofString? dom, Quantity.ofString? q, parseU u with
+      | some w, some dom, some q, some u => bstr (signalOk w dom q u)
+      | _, _, _, _ => "bad-op"
+  | _ => none
+
+def handleQ (toks : List String) : Option String :=
   match toks with
   | "q.mul" :: rest => some <|
       match parseOpd rest with
@@ -172,5 +218,10 @@ def handle (toks : List String) : Option String :=
       | some u => toString (dimU u)
       | none => "bad-op"
   | _ => none
+
+def handle (toks : List String) : Option String :=
+  match handleTP toks with
+  | some r => some r
+  | none => handleQ toks
 
 end Lcapy.Driver.C18
